@@ -24,7 +24,7 @@ MODEL = {
 INVS = ["InvPermutation", "InvCm", "InvRoc", "InvReg", "InvSil", "InvPear"]
 BIG_INVS = ["WellFormed", "RoundTrip", "AddOk", "SubOk", "MulOk", "MulBigOk", "CmpOk", "CanonOk", "QOk", "QSumOk",
             "CloseOk", "SqrtOk", "SqrtBracket"]
-BIG_R = {"quick": 12, "thorough": 120}
+BIG_R = {"quick": 12, "thorough": 60}
 
 # case generator (B): several runs of Gen_Metrics with different bounds (union of the cases)
 GEN_BASE = dict(CmLen=1, CmAlpha=1, CmBinLen=1, RocLen=2, RocDen=1, RegLen=1, RegNeg=0, RegHi=0, SilMinLen=4, SilLen=4,
@@ -36,7 +36,7 @@ def gen_runs(tier):
     runs = [
         (["cm"], dict(CmLen=3 if q else 4, CmAlpha=3, CmBinLen=5 if q else 6)),
         (["roc"], dict(RocLen=3 if q else 4, RocDen=4)),
-        (["roc"], dict(RocLen=4 if q else 5, RocDen=2)),
+        (["roc"], dict(RocLen=4, RocDen=2)),
         (["reg"], dict(RegLen=2, RegNeg=2, RegHi=2)),
         (["reg"], dict(RegLen=3, RegNeg=1, RegHi=(1 if q else 2))),
         (["mreg"], dict()),
@@ -44,7 +44,7 @@ def gen_runs(tier):
         (["sil"], dict(SilMinLen=6, SilLen=6, SilPos=3, SilKs="{3}")),
         (["pear"], dict(PearRows=3, PearCols=2, PearHi=2)),
         (["pear"], dict(PearRows=3, PearCols=3, PearHi=1)),
-        (["pear"], dict(PearRows=4, PearCols=2, PearHi=1 if q else 2)),
+        (["pear"], dict(PearRows=4, PearCols=2, PearHi=1)),
     ]
     if not q:
         runs.append((["pear"], dict(PearRows=4, PearCols=3, PearHi=1)))
@@ -74,7 +74,7 @@ def random_cases(ctx, scale=1.0):
     def cnt(x):
         return max(1, int(x * scale))
 
-    for _ in range(cnt(2500)):       # label vectors: noisy copies, labels on one side only
+    for _ in range(cnt(2000)):       # label vectors: noisy copies, labels on one side only
         n = r.randint(5, 40)
         k = r.randint(2, 5)
         alpha = sorted(r.sample(range(0, 9), k))
@@ -84,7 +84,7 @@ def random_cases(ctx, scale=1.0):
         if len(set(pred) | set(truth)) > 5:
             continue
         out.append({"kind": "cm", "inp": {"pred": pred, "truth": truth, "perm": rperm(r, n)}})
-    for _ in range(cnt(2500)):       # scores: ties, boundary scores 0 and 1
+    for _ in range(cnt(2000)):       # scores: ties, boundary scores 0 and 1
         n = r.randint(5, 40)
         den = r.choice([4, 8, 16, 64])
         truth = [r.randint(0, 1) for _ in range(n)]
@@ -93,7 +93,7 @@ def random_cases(ctx, scale=1.0):
         levels = r.sample(range(0, den + 1), min(den + 1, r.randint(2, 6))) + r.choice([[], [0], [den], [0, den]])
         num = [min(den, max(0, r.choice(levels) + (r.choice([0, 0, 1]) if t else 0))) for t in truth]
         out.append({"kind": "roc", "inp": {"num": num, "den": den, "truth": truth, "perm": rperm(r, n)}})
-    for _ in range(cnt(2500)):       # regression: offsets, non-negative (MSLE) and zero-free (MAPE) variants
+    for _ in range(cnt(2000)):       # regression: offsets, non-negative (MSLE) and zero-free (MAPE) variants
         n = r.randint(4, 40)
         mode = r.choice(["any", "nonneg", "nozero", "shift"])
         lo, hi = {"any": (-9, 9), "nonneg": (0, 9), "nozero": (1, 9), "shift": (-5, 5)}[mode]
